@@ -47,4 +47,16 @@ Fixpoint encode_all (c : codec) (ms : list (message * bytes)) : codec * bytes * 
     let '(c2, bs, outs) := encode_all c1 r in
     (c2, match out with Ok b => b ++ bs | Err _ => bs end, out :: outs)
   end.
+(* the writer side as `Framed` runs it: every message is encoded into the SAME write buffer, behind
+   whatever it already holds (frames queued and not yet flushed); a refused message leaves the
+   buffer as it was. Result: writer state, buffer, and per message the buffer after it / the error *)
+Fixpoint encode_into (c : codec) (ms : list (message * bytes)) (dst : bytes) : codec * bytes * list (res bytes) :=
+  match ms with
+  | [] => (c, dst, [])
+  | (m, key) :: r =>
+    let '(c1, out) := encode c m dst key in
+    let dst1 := match out with Ok b => b | Err _ => dst end in
+    let '(c2, dst2, outs) := encode_into c1 r dst1 in
+    (c2, dst2, out :: outs)
+  end.
 End Stream.
